@@ -1174,6 +1174,19 @@ bool evaluate_impl(const void *context, const GraphView &graph,
     state.evaluation_cursor = first_normal_node;
   }
 
+  // A failing node aborts the loop below. The nodes behind it keep their
+  // pending wake-ups; fold them into the cache, or the owner of this graph
+  // (try_except_, a keyed parent) is never told to come back for them.
+  auto fold_unvisited_schedules = [&]() noexcept {
+    for (std::size_t index = state.evaluation_cursor + 1;
+         index < runtime.layout.node_count; ++index) {
+      const DateTime pending = graph_schedule(runtime, graph.data(), index);
+      if (pending > evaluation_time && pending < state.next_scheduled_time) {
+        state.next_scheduled_time = pending;
+      }
+    }
+  };
+
   for (; state.evaluation_cursor < runtime.layout.node_count;
        ++state.evaluation_cursor) {
     auto &scheduled =
@@ -1195,13 +1208,17 @@ bool evaluate_impl(const void *context, const GraphView &graph,
             [&] { return node_view.evaluate(state.evaluation_time); },
             [&] {
               state.evaluation_failed = true;
+              fold_unvisited_schedules();
               rethrow_with_node_identity(node_view, state.evaluation_cursor,
                                          "evaluate");
             });
       } else {
         completed = annotate_on_exception(
             [&] { return node_view.evaluate(state.evaluation_time); },
-            [&] { state.evaluation_failed = true; });
+            [&] {
+              state.evaluation_failed = true;
+              fold_unvisited_schedules();
+            });
       }
       if (!completed) {
         // Pause requested: hold the cursor on this node and propagate upward
